@@ -417,6 +417,12 @@ def rounding_guard(op, wl):
     return False
 
 
+def VOLUME_VIOLATION():
+    import robotools
+
+    return robotools.VolumeViolationException
+
+
 def run_program(case):
     import numpy
 
@@ -456,6 +462,7 @@ def run_program(case):
         step = {
             "err": errcode(exc),
             "exc": type(exc).__name__ if exc is not None else None,
+            "is_violation": isinstance(exc, VOLUME_VIOLATION()) if exc is not None else None,
             "recs": [str(r) for r in wl[n0:]],
             "shrunk": len(wl) < n0,
             "lw": [{"vols": vols_obs(lw), "hlen": len(lw._history), "last": lw._labels[-1] if lw._labels else None,
